@@ -1947,7 +1947,7 @@ Qed.
 Lemma xml_switch_Inv s t' : Inv s -> wf_topo t' -> Inv (xml_switch s t') /\ AllOk (xml_switch s t').
 Proof.
   intros I W. unfold xml_switch.
-  set (s1 := fold_left xml_import_attr (number_from 0 (m_attrs s)) (MS t' init_attrs)).
+  set (s1 := fold_left xml_import_attr (number_from 0 (refresh_all (m_topo s) (m_attrs s))) (MS t' init_attrs)).
   assert (H1 : imp_ok s1 t').
   { unfold s1.
     assert (X : forall l s0, Forall (fun e : N * imattr => Forall (fun g => g_gp g <> MEMATTR_GP_NONE) (a_tgs (snd e))) l ->
@@ -1955,9 +1955,10 @@ Proof.
     { induction l as [|e l IH]; intros s0 Hl H0; [assumption|]. inversion Hl; subst. cbn [fold_left]. apply IH; [assumption|].
       now apply xml_import_attr_imp. }
     apply X.
-    - pose proof (number_from_snd 0 (m_attrs s)) as F. rewrite Forall_forall in *. intros e He. specialize (F e He).
+    - pose proof (number_from_snd 0 (refresh_all (m_topo s) (m_attrs s))) as F. rewrite Forall_forall in *. intros e He. specialize (F e He).
+      unfold refresh_all in F. apply in_map_iff in F. destruct F as [a [Ea Ha]].
       pose proof (inv_attrs s I) as A. rewrite Forall_forall in A.
-      destruct (A (snd e) F) as [T _]. rewrite Forall_forall in *. intros g Hg. apply (T g Hg).
+      destruct (cur_ok _ _ (A a Ha)) as [[T _] _]. rewrite Ea in T. rewrite Forall_forall in *. intros g Hg. apply (T g Hg).
     - split; [|reflexivity]. constructor; cbn [m_attrs m_topo].
       + apply conv_layout_of_bools. reflexivity.
       + vm_compute. discriminate.
